@@ -61,6 +61,9 @@ Section Proofs.
   Lemma abs_sig_exit y x tl l ph : abs_w (sig_exit V mbW y x tl l) = abs_w (DSig y x tl l ph).
   Proof. unfold sig_exit. cbn [ConcDetailed.abs_w]. destruct (S x <? mbW); [apply abs_start_mb|reflexivity]. Qed.
 
+  Lemma map_repeat_ {A B} (g : A -> B) a k : map g (repeat a k) = repeat (g a) k.
+  Proof. induction k as [|k IH]; cbn; [reflexivity|now rewrite IH]. Qed.
+
   (** ** the row a worker is on, and what it knows *)
   Definition row_of (w : dw V) : option nat :=
     match w with
@@ -108,7 +111,7 @@ Section Proofs.
   Proof.
     constructor.
     - exists []. cbn. unfold ConcDetailed.abs, ConcDetailed.dinit, ConcRowSync.init. cbn.
-      rewrite map_repeat. reflexivity.
+      rewrite map_repeat_. reflexivity.
     - intros y. cbn. lia.
     - intros i w H. cbn in H. apply nth_error_In, repeat_spec in H. subst. exact I.
     - intros i w y H Hr. cbn in H. apply nth_error_In, repeat_spec in H. subst. discriminate.
@@ -139,7 +142,7 @@ Section Proofs.
   (** a step by worker [i] that keeps its row and leaves adone, done, next, rec alone *)
   Lemma frame_inv n s i w w' nw' mu' :
     DInv n s -> nth_error (d_workers V s) i = Some w ->
-    abs_w w' = abs_w w -> row_of w' = row_of w ->
+    abs_w w' = abs_w w -> (forall y, row_of w' = Some y -> row_of w = Some y) ->
     worker_ok s w' ->
     DInv n (mkD V (d_next V s) (setw V s i w') (d_rec V s) (d_recRow V s) (d_done V s) (d_adone V s)
                 nw' mu' (d_top V s) (d_out V s) (d_tokens V s)).
@@ -161,18 +164,90 @@ Section Proofs.
       + rewrite set_nth_neq in Hj by exact Hne. apply (worker_ok_mono s s'); auto.
         apply (p_ok n s HI j wj Hj).
     - intros j wj y Hj Hr. cbn in Hj. unfold setw in Hj. cbn [d_next]. destruct (Nat.eq_dec i j) as [<-|Hne].
-      + rewrite set_nth_eq in Hj by exact Hil. inversion Hj; subst wj. rewrite Hrow in Hr.
+      + rewrite set_nth_eq in Hj by exact Hil. inversion Hj; subst wj. apply Hrow in Hr.
         exact (p_rows_lt n s HI i w y Hw Hr).
       + rewrite set_nth_neq in Hj by exact Hne. exact (p_rows_lt n s HI j wj y Hj Hr).
     - intros j k wj wk y Hj Hk Hrj Hrk. cbn in Hj, Hk. unfold setw in Hj, Hk.
       assert (Hget : forall m wm, nth_error (set_nth (d_workers V s) i w') m = Some wm -> row_of wm = Some y ->
                  exists wm0, nth_error (d_workers V s) m = Some wm0 /\ row_of wm0 = Some y).
       { intros m wm Hm Hrm. destruct (Nat.eq_dec i m) as [<-|Hne].
-        - rewrite set_nth_eq in Hm by exact Hil. inversion Hm; subst wm. exists w. rewrite <- Hrow. auto.
+        - rewrite set_nth_eq in Hm by exact Hil. inversion Hm; subst wm. exists w. split; [exact Hw|apply Hrow; exact Hrm].
         - rewrite set_nth_neq in Hm by exact Hne. exists wm. auto. }
       destruct (Hget j wj Hj Hrj) as (wj0 & Hj0 & Hrj0). destruct (Hget k wk Hk Hrk) as (wk0 & Hk0 & Hrk0).
       exact (p_unique n s HI j k wj0 wk0 y Hj0 Hk0 Hrj0 Hrk0).
     - apply (rec_ok_mono s s'); auto. apply (p_rec n s HI).
+  Qed.
+
+  Lemma sig_exit_ok s y x tl l : worker_ok s (sig_exit V mbW y x tl l).
+  Proof.
+    unfold sig_exit, start_mb. destruct (S x <? mbW); [|exact I].
+    destruct (y =? 0) eqn:E; cbn.
+    - left. now apply Nat.eqb_eq in E.
+    - apply Nat.eqb_neq in E. split; [lia|discriminate].
+  Qed.
+
+  Lemma sig_exit_row y x tl l y0 : row_of (sig_exit V mbW y x tl l) = Some y0 -> y0 = y.
+  Proof.
+    unfold sig_exit, start_mb. destruct (S x <? mbW); [|discriminate].
+    destruct (y =? 0); cbn; intros H; inversion H; reflexivity.
+  Qed.
+
+  Lemma wake_ok s row w : worker_ok s w -> worker_ok s (wake_w V row w).
+  Proof.
+    destruct w as [| |y x tl l ph|y x tl l|y x tl l ph]; cbn; auto.
+    destruct ph; cbn; auto. destruct (y =? S row); cbn; auto; try (intros [H0 _]; split; [exact H0|discriminate]).
+  Qed.
+
+  Lemma wake_row row w : row_of (wake_w V row w) = row_of w.
+  Proof.
+    destruct w as [| |y x tl l ph|y x tl l|y x tl l ph]; cbn; auto.
+    destruct ph; cbn; auto. destruct (y =? S row); reflexivity.
+  Qed.
+
+  (** the Broadcast step: every sleeper of the row becomes runnable; the signaller leaves signal *)
+  Lemma bcast_inv n s i y x tl l :
+    DInv n s -> nth_error (d_workers V s) i = Some (DSig y x tl l QBcast) ->
+    DInv n (mkD V (d_next V s) (set_nth (map (wake_w V y) (d_workers V s)) i (sig_exit V mbW y x tl l))
+                (wake_r y (d_recRow V s) (d_rec V s)) (d_recRow V s)
+                (d_done V s) (d_adone V s) (d_nwait V s) (d_mu V s) (d_top V s) (d_out V s) (d_tokens V s)).
+  Proof.
+    intros HI Hw. pose proof (nth_error_lt _ _ _ Hw) as Hil.
+    assert (Hil' : i < length (map (wake_w V y) (d_workers V s))) by (rewrite map_length; exact Hil).
+    set (s' := mkD V (d_next V s) (set_nth (map (wake_w V y) (d_workers V s)) i (sig_exit V mbW y x tl l))
+                (wake_r y (d_recRow V s) (d_rec V s)) (d_recRow V s)
+                (d_done V s) (d_adone V s) (d_nwait V s) (d_mu V s) (d_top V s) (d_out V s) (d_tokens V s)).
+    assert (Hsame : abs s' = abs s).
+    { unfold ConcDetailed.abs, s'. cbn. rewrite map_set_nth, map_abs_wake, (abs_sig_exit y x tl l QBcast).
+      rewrite (set_nth_same (map abs_w (d_workers V s)) i); [reflexivity|].
+      rewrite nth_error_map, Hw. reflexivity. }
+    assert (Hold : forall m wm, nth_error (d_workers V s') m = Some wm -> m <> i ->
+               exists wm0, nth_error (d_workers V s) m = Some wm0 /\ wm = wake_w V y wm0).
+    { intros m wm Hm Hne. cbn in Hm. rewrite set_nth_neq in Hm by congruence.
+      rewrite nth_error_map in Hm. destruct (nth_error (d_workers V s) m) as [wm0|]; cbn in Hm; [|discriminate].
+      inversion Hm. exists wm0. auto. }
+    assert (Hmine : forall wm, nth_error (d_workers V s') i = Some wm -> wm = sig_exit V mbW y x tl l).
+    { intros wm Hm. cbn in Hm. rewrite set_nth_eq in Hm by exact Hil'. inversion Hm; reflexivity. }
+    constructor.
+    - rewrite Hsame. apply (p_proj n s HI).
+    - apply (p_done_le n s HI).
+    - intros j wj Hj. destruct (Nat.eq_dec j i) as [->|Hne].
+      + rewrite (Hmine wj Hj). apply sig_exit_ok.
+      + destruct (Hold j wj Hj Hne) as (w0 & H0 & ->). apply wake_ok.
+        pose proof (p_ok n s HI j w0 H0) as Hk. destruct w0; cbn in *; auto.
+    - intros j wj y0 Hj Hr. cbn [d_next s']. destruct (Nat.eq_dec j i) as [->|Hne].
+      + rewrite (Hmine wj Hj) in Hr. apply sig_exit_row in Hr. subst y0. exact (p_rows_lt n s HI i _ y Hw eq_refl).
+      + destruct (Hold j wj Hj Hne) as (w0 & H0 & ->). rewrite wake_row in Hr. exact (p_rows_lt n s HI j w0 y0 H0 Hr).
+    - intros j k wj wk y0 Hj Hk Hrj Hrk.
+      assert (Hget : forall m wm, nth_error (d_workers V s') m = Some wm -> row_of wm = Some y0 ->
+                 exists wm0, nth_error (d_workers V s) m = Some wm0 /\ row_of wm0 = Some y0).
+      { intros m wm Hm Hrm. destruct (Nat.eq_dec m i) as [->|Hne].
+        - rewrite (Hmine wm Hm) in Hrm. apply sig_exit_row in Hrm. subst y0. exists (DSig y x tl l QBcast). auto.
+        - destruct (Hold m wm Hm Hne) as (w0 & H0 & ->). rewrite wake_row in Hrm. exists w0. auto. }
+      destruct (Hget j wj Hj Hrj) as (wj0 & Hj0 & Hrj0). destruct (Hget k wk Hk Hrk) as (wk0 & Hk0 & Hrk0).
+      exact (p_unique n s HI j k wj0 wk0 y0 Hj0 Hk0 Hrj0 Hrk0).
+    - pose proof (p_rec n s HI) as Hr. unfold rec_ok in *. cbn [d_rec d_recRow d_done s'].
+      destruct (d_rec V s) as [ph|]; cbn [wake_r]; [|exact Hr].
+      destruct ph; cbn [wake_r]; try exact Hr. destruct (d_recRow V s =? y); [discriminate|exact Hr].
   Qed.
 
   (** ** waitFor: what a step of [wait_step] guarantees *)
@@ -180,17 +255,30 @@ Section Proofs.
     wait_step d nw m me nd ph = Some (WCont ph' nw' m') ->
     (passed ph = true -> nd <= d) -> (passed ph' = true -> nd <= d).
   Proof.
-    destruct ph; cbn; intros H Hp Hp'; try (destruct m; try discriminate); try discriminate;
-      inversion H; subst; cbn in *; try discriminate; auto.
-    - destruct (nd <=? d); inversion H1; subst; discriminate.
-    - destruct (d <? nd) eqn:E; [discriminate|]. apply Nat.ltb_ge in E. exact E.
+    intros H Hp Hp'. destruct ph; cbn [wait_step] in H.
+    - destruct (nd <=? d); inversion H; subst. discriminate Hp'.
+    - inversion H; subst. discriminate Hp'.
+    - destruct m; inversion H; subst. discriminate Hp'.
+    - destruct (d <? nd) eqn:E; inversion H; subst; [discriminate Hp'|]. apply Nat.ltb_ge in E. exact E.
+    - inversion H; subst. discriminate Hp'.
+    - discriminate H.
+    - destruct m; inversion H; subst. discriminate Hp'.
+    - inversion H; subst. apply Hp. reflexivity.
+    - discriminate H.
   Qed.
 
   Lemma wait_step_ret d nw m me nd ph nw' m' :
     wait_step d nw m me nd ph = Some (WRet nw' m') -> (passed ph = true -> nd <= d) -> nd <= d.
   Proof.
-    destruct ph; cbn; intros H Hp; try (destruct m; try discriminate); try discriminate; inversion H; subst.
-    - destruct (nd <=? d) eqn:E; [apply Nat.leb_le in E; exact E|discriminate].
+    intros H Hp. destruct ph; cbn [wait_step] in H.
+    - destruct (nd <=? d) eqn:E; [apply Nat.leb_le in E; exact E|discriminate H].
+    - discriminate H.
+    - destruct m; discriminate H.
+    - destruct (d <? nd); discriminate H.
+    - discriminate H.
+    - discriminate H.
+    - destruct m; discriminate H.
+    - discriminate H.
     - apply Hp. reflexivity.
   Qed.
 
@@ -350,11 +438,126 @@ Section Proofs.
         * apply (frame_inv n s i (DSig y x tl l QLoad)); auto.
         * apply (frame_inv n s i (DSig y x tl l QLoad)); auto.
           -- apply abs_sig_exit.
-          -- admit.
-          -- admit.
-      + admit.
-      + admit.
-      + admit.
-  Abort.
+          -- intros y0 Hr. apply sig_exit_row in Hr. subst. reflexivity.
+          -- apply sig_exit_ok.
+      + (* QLock *)
+        destruct (d_mu V s y); [discriminate|]. inversion Hs; subst s'; clear Hs.
+        apply (frame_inv n s i (DSig y x tl l QLock)); auto.
+      + (* QUnlock *)
+        inversion Hs; subst s'; clear Hs.
+        apply (frame_inv n s i (DSig y x tl l QUnlock)); auto.
+      + (* QBcast *)
+        inversion Hs; subst s'; clear Hs. exact (bcast_inv n s i y x tl l HI Hw).
+  Qed.
+
+  (** recorder steps *)
+  Lemma rec_frame_inv n s r' nw' mu' :
+    DInv n s ->
+    (match r' with
+     | RWait ph => passed ph = true -> mbW <= d_done V s (d_recRow V s)
+     | RReady => mbW <= d_done V s (d_recRow V s)
+     end) ->
+    DInv n (mkD V (d_next V s) (d_workers V s) r' (d_recRow V s) (d_done V s) (d_adone V s)
+                nw' mu' (d_top V s) (d_out V s) (d_tokens V s)).
+  Proof.
+    intros HI Hr. constructor; cbn.
+    - apply (p_proj n s HI).
+    - apply (p_done_le n s HI).
+    - intros i w Hw. pose proof (p_ok n s HI i w Hw) as Hk. destruct w; cbn in *; auto.
+    - apply (p_rows_lt n s HI).
+    - apply (p_unique n s HI).
+    - unfold rec_ok. cbn. exact Hr.
+  Qed.
+
+  Lemma dstep_rec_inv n s s' : DInv n s -> dstep_rec s = Some s' -> DInv n s'.
+  Proof.
+    intros HI Hs. unfold ConcDetailed.dstep_rec in Hs.
+    destruct (d_recRow V s <? mbH) eqn:Elt; [|discriminate]. apply Nat.ltb_lt in Elt.
+    pose proof (p_rec n s HI) as Hrec. unfold rec_ok in Hrec.
+    destruct (d_rec V s) as [ph|] eqn:Er.
+    - destruct (wait_step (d_done V s (d_recRow V s)) (d_nwait V s (d_recRow V s)) (d_mu V s (d_recRow V s)) ORec mbW ph)
+        as [[ph' nw' m'|nw' m']|] eqn:Hws; [| |discriminate]; inversion Hs; subst s'; clear Hs.
+      + apply (rec_frame_inv n s (RWait ph')); auto. exact (wait_step_passed _ _ _ _ _ _ _ _ _ Hws Hrec).
+      + apply (rec_frame_inv n s RReady); auto. exact (wait_step_ret _ _ _ _ _ _ _ _ Hws Hrec).
+    - (* record = L1's recorder step *)
+      inversion Hs; subst s'; clear Hs.
+      destruct (p_proj n s HI) as (sched & Hrun). pose proof (abs_inv n s HI) as HL1.
+      pose proof (i_done_le V v0 f mbW mbH n (abs s) HL1 (d_recRow V s)) as Hle. cbn [done ConcDetailed.abs] in Hle.
+      pose proof (p_done_le n s HI (d_recRow V s)) as Hda.
+      assert (Hstep : step1 (abs s) LRec =
+         Some (abs (mkD V (d_next V s) (d_workers V s) (RWait PFast) (S (d_recRow V s)) (d_done V s) (d_adone V s)
+                    (d_nwait V s) (d_mu V s) (d_top V s) (d_out V s)
+                    (d_tokens V s ++ map (dout_or_v0 V v0 s (d_recRow V s)) (seq 0 mbW))))).
+      { cbn [ConcRowSync.step]. unfold ConcRowSync.step_rec. cbn [recRow done ConcDetailed.abs].
+        apply Nat.ltb_lt in Elt. rewrite Elt.
+        replace (d_adone V s (d_recRow V s) =? mbW) with true by (symmetry; apply Nat.eqb_eq; lia).
+        reflexivity. }
+      constructor; cbn.
+      + exists (sched ++ [LRec]). exact (run1_snoc _ _ _ _ Hrun _ Hstep).
+      + apply (p_done_le n s HI).
+      + intros i w Hw. pose proof (p_ok n s HI i w Hw) as Hk. destruct w; cbn in *; auto.
+      + apply (p_rows_lt n s HI).
+      + apply (p_unique n s HI).
+      + unfold rec_ok. cbn. discriminate.
+  Qed.
+
+  Lemma dstep_inv n s l s' : DInv n s -> dstep s l = Some s' -> DInv n s'.
+  Proof. destruct l as [i|]; cbn [ConcDetailed.dstep]; [apply dstep_worker_inv|apply dstep_rec_inv]. Qed.
+
+  Theorem detailed_inv : forall n sched s, drun (dinit n) sched = Some s -> DInv n s.
+  Proof.
+    intros n sched.
+    assert (G : forall s0, DInv n s0 -> forall s1, drun s0 sched = Some s1 -> DInv n s1).
+    { induction sched as [|l rest IH]; intros s0 H0 s1 Hr; cbn [ConcDetailed.drun] in Hr.
+      - inversion Hr; subst; exact H0.
+      - destruct (dstep s0 l) as [s2|] eqn:Hs; [|discriminate].
+        exact (IH s2 (dstep_inv n s0 l s2 H0 Hs) s1 Hr). }
+    intros s Hr. exact (G (dinit n) (dinit_inv n) s Hr).
+  Qed.
+
+  (** ** The refinement theorem: every run of the detailed system projects to a run of
+      the L1 system that ends in the abstraction of its last state. *)
+  Theorem detailed_refines_rowsync : forall n sched s,
+    drun (dinit n) sched = Some s ->
+    exists sched1, run1 (init1 n) sched1 = Some (abs s).
+  Proof. intros n sched s Hr. exact (p_proj n s (detailed_inv n sched s Hr)). Qed.
+
+  Lemma dfinal_abs s : dfinal V mbH s = true -> final V mbH (abs s) = true.
+  Proof.
+    unfold dfinal, ConcRowSync.final. cbn [workers recRow ConcDetailed.abs]. intros H.
+    apply andb_true_iff in H. destruct H as [H1 H2]. rewrite H2, andb_true_r.
+    rewrite forallb_forall in *. intros w Hw. apply in_map_iff in Hw. destruct Hw as (w0 & <- & Hw0).
+    specialize (H1 w0 Hw0). destruct w0; cbn in *; congruence.
+  Qed.
+
+  (** Every detailed run that reaches a final state ends with the serial result: the L1
+      determinism theorem transfers through the simulation ([out] and [tokens] are the
+      same fields in both systems). *)
+  Theorem detailed_deterministic : forall n sched s,
+    drun (dinit n) sched = Some s -> dfinal V mbH s = true ->
+    (forall y x, y < mbH -> x < mbW -> d_out V s y x = Some (serial_out V v0 f mbW y x)) /\
+    d_tokens V s = serial_tokens V v0 f mbW mbH.
+  Proof.
+    intros n sched s Hr Hf. destruct (detailed_refines_rowsync n sched s Hr) as (sched1 & H1).
+    exact (rowsync_deterministic V v0 f mbW mbH HmbW n sched1 (abs s) H1 (dfinal_abs s Hf)).
+  Qed.
+
+  (** In the detailed system too, a macroblock body reads what the serial order has. *)
+  Theorem detailed_reads_serial : forall n sched s i y x tl l,
+    drun (dinit n) sched = Some s -> nth_error (d_workers V s) i = Some (DCompute y x tl l) ->
+    d_top V s x = ((if y =? 0 then None else Some (y - 1)), P V v0 f mbW y x) /\
+    (S x < mbW -> d_top V s (S x) = ((if y =? 0 then None else Some (y - 1)), P V v0 f mbW y (S x))).
+  Proof.
+    intros n sched s i y x tl l Hr Hw. pose proof (detailed_inv n sched s Hr) as HI.
+    destruct (p_proj n s HI) as (sched1 & H1).
+    assert (Habsw : nth_error (workers V (abs s)) i = Some (AtMB y x tl l))
+      by (cbn; rewrite nth_error_map, Hw; reflexivity).
+    assert (Hguard : guard V mbW (abs s) y x = true).
+    { pose proof (p_ok n s HI i _ Hw) as Hok. cbn in Hok.
+      unfold ConcRowSync.guard. cbn [done ConcDetailed.abs]. destruct Hok as [->|Hnd]; [reflexivity|].
+      apply orb_true_iff. right. apply Nat.leb_le. pose proof (p_done_le n s HI (y - 1)). lia. }
+    destruct (rowsync_reads_serial V v0 f mbW mbH HmbW n sched1 (abs s) i y x tl l H1 Habsw Hguard) as (A & B & _).
+    split; assumption.
+  Qed.
 
 End Proofs.
